@@ -13,7 +13,7 @@ KINDS = {
             "DeleteFailed", "RestartFailed", "NodeDied", "ViewError"],
     "C20": ["MembersLostOnRestart", "RemovedStillListed", "MemberMissing", "AddressWrong", "JoinFailed", "RestartFailed", "NodeDied"],
 }
-SCENARIOS = ["basic", "wiring", "snapshot", "leave", "lagging", "lagging-leave", "joinfail", "lagging-replicas"]
+SCENARIOS = ["basic", "wiring", "snapshot", "leave", "lagging", "lagging-leave", "joinfail", "lagging-replicas", "joincrash"]
 
 
 def run_scenarios(ctx, repeat, scenarios=None):
@@ -34,7 +34,7 @@ def run_scenarios(ctx, repeat, scenarios=None):
         subprocess.run(["rm", "-rf", work])
         return sc, lines
     jobs = [(i, sc) for i, sc in enumerate((scenarios or SCENARIOS) * repeat)]
-    with ThreadPoolExecutor(max_workers=8) as ex:
+    with ThreadPoolExecutor(max_workers=9) as ex:
         res = list(ex.map(one, jobs))
     trace = ctx.path("cluster.ndjson")
     with open(trace, "w") as f:
